@@ -197,10 +197,10 @@ def run_verus_once(path, extra, timeout):
     return dict(rc=rc, wall=time.time() - t0, cmd=' '.join(cmd), diags=diags, funcs=funcs, results=results, hard=hard, hard_lines=hard_lines, times=times)
 
 
-def run_unit(name, tier='quick', use_cache=True, extra_args=(), log=print, degrade_items=()):
+def run_unit(name, tier='quick', use_cache=True, extra_args=(), log=print, degrade_items=(), bare_items=()):
     cfg = UNITS[name]
     os.makedirs(CACHE, exist_ok=True)
-    asm = A.assemble(cfg['modules'], cfg.get('spec', ()), main_file=cfg.get('main_file'), degrade_items=degrade_items)
+    asm = A.assemble(cfg['modules'], cfg.get('spec', ()), main_file=cfg.get('main_file'), degrade_items=degrade_items, bare_items=bare_items)
     path = os.path.join(BUILD, 'tm_%s.rs' % name)
     rlimit = '30' if tier == 'quick' else '60'
     args = ['--rlimit', rlimit] + list(extra_args)
@@ -278,18 +278,28 @@ def run_unit(name, tier='quick', use_cache=True, extra_args=(), log=print, degra
                              clause=(clause['text'][:300] if clause else None), rendered=d.get('rendered', '')[:3000],
                              item_changed=bool(it and it.get('changed_tokens')), item_structural=bool(it and (it.get('changed_tokens') or 0) < 0)))
     # degraded retry: front-end errors located only in items whose code differs from the pinned text -> assume those items' contracts
-    if res.get('hard') and res.get('hard_lines') and not degrade_items:
+    if res.get('hard') and res.get('hard_lines') and not degrade_items and not bare_items:
         bad = set()
         for ln in res['hard_lines']:
             it = next((x for x in asm.items if x['line_start'] <= ln <= x['line_end']), None)
             if it is not None and it.get('changed_tokens') and it.get('annotated') and it['key'].startswith(('fn ', 'impl ')):
                 bad.add((it['module'], it['key']))
         if bad:
-            ur2 = run_unit(name, tier, use_cache, extra_args, log, degrade_items=tuple(sorted(bad)))
-            ur2.degraded = sorted(bad)
+            # stage 1: keep the restructured bodies under verification, with their contract headers but without the body hints that no longer fit
+            ur1 = run_unit(name, tier, use_cache, extra_args, log, bare_items=tuple(sorted(bad)))
+            still = set()
+            if ur1.hard: still = set(bad)
+            for f in ur1.failures:
+                if (f['module'], f['item']) in bad: still.add((f['module'], f['item']))
+            if not still:
+                ur1.bare = sorted(bad); ur1.degraded = []
+                return ur1
+            # stage 2: what still does not verify is assumed (external_body); the other restructured items stay verified from their headers
+            ur2 = run_unit(name, tier, use_cache, extra_args, log, degrade_items=tuple(sorted(still)), bare_items=tuple(sorted(bad - still)))
+            ur2.degraded = sorted(still); ur2.bare = sorted(bad - still)
             return ur2
     ur = UnitResult()
-    ur.degraded = list(degrade_items)
+    ur.degraded = list(degrade_items); ur.bare = list(bare_items)
     ur.name = name; ur.asm = asm; ur.path = path; ur.res = res; ur.obligations = obls; ur.failures = failures
     ur.hard = res.get('hard', []); ur.marks = marks; ur.binpath = binpath if cfg.get('compile') else None; ur.key = key
     return ur
